@@ -52,6 +52,10 @@ pub mod c36;
 pub mod c37;
 #[cfg(feature = "full")]
 pub mod c39;
+#[cfg(feature = "full")]
+pub mod c40;
+#[cfg(feature = "full")]
+pub mod c42;
 pub mod c38;
 
 pub struct Property {
@@ -91,6 +95,8 @@ pub fn all() -> Vec<Property> {
         v.push(Property { id: "C36", level: "exploration", build: c36::build });
         v.push(Property { id: "C37", level: "exploration", build: c37::build });
         v.push(Property { id: "C39", level: "exploration", build: c39::build });
+        v.push(Property { id: "C40", level: "exploration", build: c40::build });
+        v.push(Property { id: "C42", level: "exploration", build: c42::build });
         v.push(Property { id: "C38", level: "exploration", build: c38::build });
     }
     v
